@@ -125,12 +125,14 @@ func prepareScratch(id, tier string, progs []hgen.Program) (*scratchCtx, int) {
 				os.WriteFile(filepath.Join(pd, n), b, 0o644)
 			}
 			// harness against generated API: a missing/renamed method shows up here
-			vet2 := exec.Command("go", "vet", "./"+p.Pkg)
+			vet2 := exec.Command("go", "build", "./"+p.Pkg)
 			vet2.Dir = dir
 			vet2.Env = goEnv()
-			if out, err := vet2.CombinedOutput(); err != nil && strings.Contains(string(out), "undefined") {
+			if out, err := vet2.CombinedOutput(); err != nil {
+				// the harness is generated from the same specification and type-checks against the output of the
+				// unchanged generator: a mismatch means a member is missing or has another signature / arity
 				mu.Lock()
-				sc.violations = append(sc.violations, scratchViolation{sc.keep(id, p.Pkg, "api-missing"), fmt.Sprintf("program %s: the generated API lacks a member the specification requires: %s", p.Pkg, lastLines(string(out), 4))})
+				sc.violations = append(sc.violations, scratchViolation{sc.keep(id, p.Pkg, "api-missing"), fmt.Sprintf("program %s: the generated API does not have the members/signatures the specification requires: %s", p.Pkg, lastLines(string(out), 4))})
 				mu.Unlock()
 				return
 			}
@@ -227,7 +229,7 @@ func runScratchReplay(dir string) (bool, string) {
 	}
 	switch meta.Why {
 	case "does-not-compile", "api-missing", "gombok-failed":
-		cmd := exec.Command("go", "vet", "./"+meta.Pkg)
+		cmd := exec.Command("go", "build", "./"+meta.Pkg)
 		cmd.Dir = tmp
 		cmd.Env = goEnv()
 		out, err := cmd.CombinedOutput()
